@@ -534,38 +534,61 @@ fn rng_for(seed: u64, a: u64, b: u64) -> fastrand::Rng {
 // ------------------------------------------------------------------------------------------------
 // Fuzz inputs (C13 wire part)
 
-/// Coarse class of an arbitrary byte string, for signatures: what the frame header says.
-fn classify(b: &[u8]) -> String {
-    if b.len() < 5 || &b[..4] != b"rad\x01" {
-        return "noheader".into();
+/// Coarse class of an arbitrary byte string, for signatures: what the frame headers say. Walks the
+/// frames as far as they parse and reports the first frame that declares a huge payload, else the
+/// first frame that cannot be skipped.
+fn classify(bytes: &[u8]) -> String {
+    fn varint_at(b: &[u8]) -> Option<(u64, usize)> {
+        let first = *b.first()?;
+        let w = 1usize << (first >> 6);
+        if b.len() < w {
+            return None;
+        }
+        let mut x: u64 = (first & 0x3f) as u64;
+        for y in &b[1..w] {
+            x = (x << 8) | *y as u64;
+        }
+        Some((x, w))
     }
-    let w = 1usize << (b[4] >> 6);
-    if b.len() < 4 + w {
-        return "shortheader".into();
-    }
-    let kind = (b[4 + w - 1] >> 1) & 3;
-    let rest = &b[4 + w..];
-    match kind {
-        0 => format!("control/cmd={}", rest.first().map(|c| if *c < 3 { c.to_string() } else { "bad".into() }).unwrap_or("none".into())),
-        3 => "unknownkind".into(),
-        k => {
-            let name = if k == 1 { "gossip" } else { "git" };
-            if rest.is_empty() {
-                return format!("{name}/nolength");
+    let mut b = bytes;
+    let mut first: Option<String> = None;
+    loop {
+        let class = (|| -> (String, Option<usize>) {
+            if b.len() < 5 || &b[..4] != b"rad\x01" {
+                return ("noheader".into(), None);
             }
-            let lw = 1usize << (rest[0] >> 6);
-            if rest.len() < lw {
-                return format!("{name}/shortlength");
+            let Some((sid, w)) = varint_at(&b[4..]) else { return ("shortheader".into(), None) };
+            let rest = &b[4 + w..];
+            match (sid >> 1) & 3 {
+                0 => {
+                    let cmd = rest.first().map(|c| if *c < 3 { c.to_string() } else { "bad".into() }).unwrap_or("none".into());
+                    let skip = rest.get(1..).and_then(varint_at).filter(|_| cmd != "bad" && cmd != "none").map(|(_, cw)| 4 + w + 1 + cw);
+                    (format!("control/cmd={cmd}"), skip)
+                }
+                3 => ("unknownkind".into(), None),
+                k => {
+                    let name = if k == 1 { "gossip" } else { "git" };
+                    let Some((x, lw)) = varint_at(rest) else { return (format!("{name}/shortlength"), None) };
+                    let d = if x >= 1 << 31 { ">=2^31" } else if x >= (1 << 30) - 1 { ">=2^30-1" } else if x > 131072 { ">K" } else { "small" };
+                    let complete = (rest.len() - lw) as u64 >= x;
+                    (format!("{name}/lenW={lw}/declared={d}/{}", if complete { "complete" } else { "short" }),
+                     if complete { Some(4 + w + lw + x as usize) } else { None })
+                }
             }
-            let mut x: u64 = (rest[0] & 0x3f) as u64;
-            for y in &rest[1..lw] {
-                x = (x << 8) | *y as u64;
-            }
-            let d = if x >= 1 << 31 { ">=2^31" } else if x >= (1 << 30) - 1 { ">=2^30-1" } else if x > 131072 { ">K" } else { "small" };
-            let c = if (rest.len() - lw) as u64 >= x { "complete" } else { "short" };
-            format!("{name}/lenW={lw}/declared={d}/{c}")
+        })();
+        let huge = class.0.contains("declared=>=2");
+        if first.is_none() || huge {
+            first = Some(class.0.clone());
+        }
+        match class.1 {
+            Some(n) if !huge && n > 0 && n <= b.len() => b = &b[n..],
+            _ => break,
+        }
+        if b.is_empty() {
+            break;
         }
     }
+    first.unwrap_or_else(|| "empty".into())
 }
 
 fn random_message(rng: &mut fastrand::Rng) -> Message {
